@@ -152,6 +152,38 @@ Theorem C05_operands_meta_builder : forall nodes root t init lit fuel r,
 Proof. exact C05_operands_meta_builder_proof. Qed.
 Print Assumptions C05_operands_meta_builder.
 
+(* ---- ... and every node array the parser accepts is a proper tree ---- *)
+(* the parser's own final check, validate_tree (depth-first walk with visited
+   flags and parent check), accepts only node arrays whose links below the root
+   form a proper tree; so what parse returns is the empty program or a proper tree *)
+Theorem C05_validate_tree_of : forall nodes root,
+  validate_tree nodes root = Ok tt -> exists t, tree_of nodes root = Some t.
+Proof. exact validate_tree_of_proof. Qed.
+Print Assumptions C05_validate_tree_of.
+
+Theorem C05_parse_tree_of : forall toks root nodes,
+  parse toks = Ok (root, nodes) -> nodes = [] \/ exists t, tree_of nodes root = Some t.
+Proof. exact parse_tree_of_proof. Qed.
+Print Assumptions C05_parse_tree_of.
+
+(* for EVERY token sequence the parser model accepts (no bound): the builder model's
+   result is the tree compiler's, and outside C05-K1 / C05-K2 it is well-formed *)
+Theorem compile_agrees_parsed : forall toks root nodes,
+  parse toks = Ok (root, nodes) -> nodes <> [] ->
+  exists t, tree_of nodes root = Some t /\
+    forall init lit fuel r, build nodes init lit fuel root = Ok r ->
+      compile init lit t = Ok (mkC (instrs (fst r)) (meta (fst r)) (jumps (fst r)), snd r).
+Proof. exact compile_agrees_parsed_proof. Qed.
+Print Assumptions compile_agrees_parsed.
+
+Theorem C05_full_parsed : forall toks root nodes,
+  parse toks = Ok (root, nodes) -> nodes <> [] ->
+  exists t, tree_of nodes root = Some t /\
+    forall init lit fuel r, ~ Known_C05_K1 init t -> ~ Known_C05_K2 t ->
+      build nodes init lit fuel root = Ok r -> wf_code nodes init (code_of_build r).
+Proof. exact C05_full_parsed_proof. Qed.
+Print Assumptions C05_full_parsed.
+
 (* non-vacuity: a program with a conditional, a logical operator and a nested
    expression is accepted, is in no excluded class, and is well-formed *)
 Example C05_ex_nontrivial :
